@@ -19,10 +19,34 @@ package main
 //         a field / element / pointee assigned (or is the target of delete,
 //         copy, clear), is the destination of append, or has a pointer-receiver
 //         method called on it or on a part of it; and every read of a non-sync
-//         field of a variable that carries a mutex (registry.table).  `locked`
-//         says that the place lies lexically between <var>.Lock() and
-//         <var>.Unlock() (or after a Lock whose Unlock is deferred) in the same
-//         top-level function.
+//         field of a variable that carries a mutex (registry.table).
+//
+// `locked` (about the variable's OWN mutex: <var>.Lock(), <var>.mu.Lock(), ...):
+//   lexical   the place lies between <var>.Lock() and <var>.Unlock() (or after
+//             a Lock whose Unlock is deferred) in the same top-level function.
+//             A mutation needs the exclusive lock (Lock); under RLock only
+//             reads count as locked.  The body of a `go func() {...}()`
+//             literal is a function of its own: the enclosing region does not
+//             cover it.
+//   callers   or the place is in a function that is only ever "called with
+//             <var> locked": an unexported, receiver-less function of the
+//             package, whose value is never taken (every mention of it is a
+//             call), that has at least one call site outside `init`, and EVERY
+//             such call site is a plain call (not `go`, not `defer`) lying in
+//             a locked region of <var> or in another function that is itself
+//             called with <var> locked (greatest fixpoint per variable and
+//             lock mode).  This is what a helper documented "the caller must
+//             hold the lock" amounts to.
+//
+// Synchronisation (`sync` = true, never counted as unguarded state): variables
+// whose type is declared in sync or sync/atomic and calls of methods declared
+// there; and method calls on values of the standard-library types below, which
+// their documentation declares safe for concurrent use by multiple goroutines
+// (an ASSUMPTION about the standard library, listed in the evidence):
+//     *strings.Replacer   every method
+//     *regexp.Regexp      every method except the configuration method Longest
+// Only method CALLS are covered: assigning such a variable after init, or
+// taking its address, is flagged like for any other variable.
 //
 // Not tracked (stated in the evidence): reference-typed values handed out by
 // value (`return noProperty`), mutation through interface-typed variables,
@@ -65,6 +89,7 @@ type SrcAcc struct {
 	Line   int    `json:"line"`
 	Sync   bool   `json:"sync"`
 	Locked bool   `json:"locked"`
+	Via    string `json:"locked_via,omitempty"` // lexical | callers
 	col    int
 	file   string
 }
@@ -79,6 +104,9 @@ type SrcFacts struct {
 	TypeErrors int      `json:"type_errors"`
 	FakeImport []string `json:"unresolved_imports,omitempty"`
 	Notes      []string `json:"notes,omitempty"`
+	// functions only ever called with a variable locked ("var: func (mode)")
+	CalledLocked []string `json:"called_with_lock_held,omitempty"`
+	Assumptions  []string `json:"assumptions"`
 }
 
 // ---------------------------------------------------------------- locating the repository
@@ -336,6 +364,38 @@ func typeIsSync(t types.Type) bool {
 	return false
 }
 
+// Standard-library types documented as safe for concurrent use by multiple
+// goroutines; the value lists the methods that are NOT (configuration).
+var sfConcurrencySafe = map[string]map[string]bool{
+	"strings.Replacer": {},
+	"regexp.Regexp":    {"Longest": true},
+}
+
+var sfAssumptions = []string{
+	"methods of *strings.Replacer are safe for concurrent use by multiple goroutines (package strings documentation); calls of them on a package-level variable are treated as synchronisation, not as mutation",
+	"methods of *regexp.Regexp except the configuration method Longest are safe for concurrent use by multiple goroutines (package regexp documentation); calls of them on a package-level variable are treated as synchronisation, not as mutation",
+	"a function all of whose call sites in its package lie in a locked region of a variable (transitively) runs with that variable's lock held; call sites in _test.go files and in init functions are not considered",
+	"the lock rule is lexical within a function: branches and early unlocks on other paths are not followed",
+}
+
+// safeMethod: f is a method of a whitelisted concurrency-safe type
+func safeMethod(f *types.Func) bool {
+	sig, ok := f.Type().(*types.Signature)
+	if !ok || sig.Recv() == nil {
+		return false
+	}
+	t := sig.Recv().Type()
+	if p, ok := t.(*types.Pointer); ok {
+		t = p.Elem()
+	}
+	n, ok := t.(*types.Named)
+	if !ok || n.Obj().Pkg() == nil {
+		return false
+	}
+	excl, ok := sfConcurrencySafe[n.Obj().Pkg().Path()+"."+n.Obj().Name()]
+	return ok && !excl[f.Name()]
+}
+
 // carriesMutex: a struct with a field of a sync type
 func carriesMutex(t types.Type) bool {
 	if p, ok := t.(*types.Pointer); ok {
@@ -354,17 +414,72 @@ func carriesMutex(t types.Type) bool {
 }
 
 type lockEvent struct {
-	pos      token.Pos
-	lock     bool
-	deferred bool
+	pos       token.Pos
+	lock      bool
+	exclusive bool // Lock / Unlock (not RLock / RUnlock)
+	deferred  bool
+}
+
+type sfRawAcc struct {
+	acc SrcAcc
+	v   *types.Var
+	pos token.Pos
+}
+
+type sfCall struct {
+	callee *types.Func
+	pos    token.Pos
+	async  bool // go f() / defer f()
+}
+
+// sfFunc: what one function body contributes
+type sfFunc struct {
+	name   string
+	obj    *types.Func // nil for literals
+	decl   *ast.FuncDecl
+	accs   []sfRawAcc
+	events map[*types.Var][]lockEvent
+	calls  []sfCall
+}
+
+// held: 0 = v not locked at pos in f, 1 = read-locked, 2 = exclusively locked
+func (f *sfFunc) held(v *types.Var, pos token.Pos) int {
+	evs := f.events[v]
+	state, lastLock := 0, token.NoPos
+	for _, ev := range evs {
+		if ev.pos >= pos {
+			break
+		}
+		if ev.lock {
+			lastLock = ev.pos
+			if ev.exclusive {
+				state = 2
+			} else {
+				state = 1
+			}
+		} else if !ev.deferred {
+			state = 0
+		}
+	}
+	if state == 0 {
+		return 0
+	}
+	for _, ev := range evs {
+		if !ev.lock && ev.pos > lastLock {
+			return state
+		}
+	}
+	return 0 // never released: not a lock region we understand
 }
 
 type sfWalker struct {
 	l       *sfLoader
 	rel     string // package id: directory relative to the module root
 	info    *types.Info
+	pkg     *types.Package
 	tracked map[*types.Var]string // package-level var -> package id
 	out     *SrcFacts
+	funcs   []*sfFunc
 }
 
 func (w *sfWalker) pkgLevel(o types.Object) *types.Var {
@@ -448,21 +563,23 @@ func funcName(fd *ast.FuncDecl) string {
 	return fd.Name.Name
 }
 
-// body walks one top-level function body (nested literals included: "the same
-// function" for the lexical lock rule).
-func (w *sfWalker) body(fn string, body ast.Node) {
+// body walks one function body (nested literals included: "the same
+// function" for the lexical lock rule - except the literal of a
+// `go func() {...}()` statement, which is walked as a function of its own).
+func (w *sfWalker) body(fn string, decl *ast.FuncDecl, body ast.Node) {
 	if body == nil {
 		return
 	}
-	type rawAcc struct {
-		acc SrcAcc
-		v   *types.Var
-		pos token.Pos
+	f := &sfFunc{name: fn, decl: decl, events: map[*types.Var][]lockEvent{}}
+	if decl != nil {
+		f.obj, _ = w.info.Defs[decl.Name].(*types.Func)
 	}
-	var accs []rawAcc
-	events := map[*types.Var][]lockEvent{}
+	w.funcs = append(w.funcs, f)
 	deferred := map[*ast.CallExpr]bool{}
+	async := map[*ast.CallExpr]bool{}
 	mutated := map[ast.Expr]bool{}
+	var goLits []*ast.FuncLit
+	skip := map[*ast.FuncLit]bool{}
 
 	add := func(e ast.Expr, kind, meth string, sync bool, forceField bool) {
 		v, path, bare := w.root(e)
@@ -474,7 +591,7 @@ func (w *sfWalker) body(fn string, body ast.Node) {
 			k = "field-assign"
 		}
 		p := w.l.fset.Position(e.Pos())
-		accs = append(accs, rawAcc{SrcAcc{Pkg: w.tracked[v], Var: v.Name(), Path: strings.Join(path, "."), Meth: meth, Kind: k, Func: fn,
+		f.accs = append(f.accs, sfRawAcc{SrcAcc{Pkg: w.tracked[v], Var: v.Name(), Path: strings.Join(path, "."), Meth: meth, Kind: k, Func: fn,
 			Line: p.Line, col: p.Column, file: p.Filename, Sync: sync || typeIsSync(v.Type())}, v, e.Pos()})
 		for x := e; x != nil; {
 			mutated[x] = true
@@ -495,8 +612,19 @@ func (w *sfWalker) body(fn string, body ast.Node) {
 
 	ast.Inspect(body, func(n ast.Node) bool {
 		switch x := n.(type) {
+		case *ast.FuncLit:
+			if skip[x] {
+				return false
+			}
+		case *ast.GoStmt:
+			async[x.Call] = true
+			if fl, ok := x.Call.Fun.(*ast.FuncLit); ok {
+				skip[fl] = true
+				goLits = append(goLits, fl)
+			}
 		case *ast.DeferStmt:
 			deferred[x.Call] = true
+			async[x.Call] = true
 		case *ast.AssignStmt:
 			if x.Tok != token.DEFINE {
 				for _, lhs := range x.Lhs {
@@ -527,26 +655,34 @@ func (w *sfWalker) body(fn string, body ast.Node) {
 				}
 				break
 			}
-			if id, ok := fun.(*ast.Ident); ok && len(x.Args) > 0 {
-				if _, isB := w.info.Uses[id].(*types.Builtin); isB {
-					switch id.Name {
-					case "append":
-						add(x.Args[0], "append-dst", "", false, false)
-					case "delete", "copy", "clear":
-						add(x.Args[0], "assign", "", false, true)
+			if id, ok := fun.(*ast.Ident); ok {
+				switch o := w.info.Uses[id].(type) {
+				case *types.Builtin:
+					if len(x.Args) > 0 {
+						switch id.Name {
+						case "append":
+							add(x.Args[0], "append-dst", "", false, false)
+						case "delete", "copy", "clear":
+							add(x.Args[0], "assign", "", false, true)
+						}
+					}
+				case *types.Func:
+					if o.Pkg() == w.pkg {
+						f.calls = append(f.calls, sfCall{callee: o, pos: x.Pos(), async: async[x]})
 					}
 				}
 			}
 			if sel, ok := fun.(*ast.SelectorExpr); ok {
-				ptrRecv, syncM, known := false, false, false
+				ptrRecv, syncM, lockM, known := false, false, false, false
 				if s := w.info.Selections[sel]; s != nil {
 					known = true
 					if s.Kind() == types.MethodVal {
-						if f, ok := s.Obj().(*types.Func); ok {
-							if sig, ok := f.Type().(*types.Signature); ok && sig.Recv() != nil {
+						if mf, ok := s.Obj().(*types.Func); ok {
+							if sig, ok := mf.Type().(*types.Signature); ok && sig.Recv() != nil {
 								_, ptrRecv = sig.Recv().Type().(*types.Pointer)
 							}
-							syncM = isSyncPkg(f.Pkg())
+							lockM = isSyncPkg(mf.Pkg())
+							syncM = lockM || safeMethod(mf)
 						}
 					}
 				}
@@ -555,14 +691,15 @@ func (w *sfWalker) body(fn string, body ast.Node) {
 				if !known && isLockName {
 					// the method could not be resolved (sync not loadable): go by the name
 					if v, _, _ := w.root(sel.X); v != nil {
-						ptrRecv, syncM = true, true
+						ptrRecv, syncM, lockM = true, true, true
 					}
 				}
 				if ptrRecv {
 					add(sel.X, "ptr-call", name, syncM, false)
-					if syncM && isLockName {
+					if lockM && isLockName {
 						if v, _, _ := w.root(sel.X); v != nil {
-							events[v] = append(events[v], lockEvent{pos: x.Pos(), lock: name == "Lock" || name == "RLock", deferred: deferred[x]})
+							f.events[v] = append(f.events[v], lockEvent{pos: x.Pos(), lock: name == "Lock" || name == "RLock",
+								exclusive: name == "Lock" || name == "Unlock", deferred: deferred[x]})
 						}
 					}
 				}
@@ -573,6 +710,9 @@ func (w *sfWalker) body(fn string, body ast.Node) {
 
 	// reads of the guarded parts of mutex-carrying variables
 	ast.Inspect(body, func(n ast.Node) bool {
+		if fl, ok := n.(*ast.FuncLit); ok && skip[fl] {
+			return false
+		}
 		sel, ok := n.(*ast.SelectorExpr)
 		if !ok || mutated[sel] {
 			return true
@@ -589,39 +729,133 @@ func (w *sfWalker) body(fn string, body ast.Node) {
 			return true
 		}
 		p := w.l.fset.Position(sel.Pos())
-		accs = append(accs, rawAcc{SrcAcc{Pkg: w.tracked[v], Var: v.Name(), Path: strings.Join(path, "."), Kind: "read", Func: fn,
+		f.accs = append(f.accs, sfRawAcc{SrcAcc{Pkg: w.tracked[v], Var: v.Name(), Path: strings.Join(path, "."), Kind: "read", Func: fn,
 			Line: p.Line, col: p.Column, file: p.Filename}, v, sel.Pos()})
 		return true
 	})
-
-	for _, ra := range accs {
-		evs := events[ra.v]
+	for v := range f.events {
+		evs := f.events[v]
 		sort.Slice(evs, func(i, j int) bool { return evs[i].pos < evs[j].pos })
-		held, lastLock := false, token.NoPos
-		for _, ev := range evs {
-			if ev.pos >= ra.pos {
-				break
+	}
+	for _, fl := range goLits {
+		w.body(fn+".go-func", nil, fl.Body)
+	}
+}
+
+// finish decides `locked` for every access of the package: lexically, or
+// because the enclosing function is only ever called with the variable locked.
+func (w *sfWalker) finish(files []*ast.File) {
+	// every mention of a package function that is not a call takes its value
+	callIdent := map[*ast.Ident]bool{}
+	for _, file := range files {
+		ast.Inspect(file, func(n ast.Node) bool {
+			if c, ok := n.(*ast.CallExpr); ok {
+				fun := c.Fun
+				for {
+					if p, ok := fun.(*ast.ParenExpr); ok {
+						fun = p.X
+						continue
+					}
+					break
+				}
+				if id, ok := fun.(*ast.Ident); ok {
+					callIdent[id] = true
+				}
 			}
-			if ev.lock {
-				held, lastLock = true, ev.pos
-			} else if !ev.deferred {
-				held = false
+			return true
+		})
+	}
+	valueTaken := map[*types.Func]bool{}
+	for _, file := range files {
+		ast.Inspect(file, func(n ast.Node) bool {
+			if id, ok := n.(*ast.Ident); ok && !callIdent[id] {
+				if fo, ok := w.info.Uses[id].(*types.Func); ok && fo.Pkg() == w.pkg {
+					valueTaken[fo] = true
+				}
+			}
+			return true
+		})
+	}
+	type site struct {
+		in *sfFunc
+		c  sfCall
+	}
+	sites := map[*types.Func][]site{}
+	vars := map[*types.Var]bool{}
+	for _, f := range w.funcs {
+		for _, c := range f.calls {
+			sites[c.callee] = append(sites[c.callee], site{f, c})
+		}
+		for v := range f.events {
+			vars[v] = true
+		}
+	}
+	var cands []*sfFunc
+	for _, f := range w.funcs {
+		if f.obj == nil || f.decl == nil || f.decl.Recv != nil || ast.IsExported(f.decl.Name.Name) ||
+			f.decl.Name.Name == "main" || f.decl.Name.Name == "init" || valueTaken[f.obj] || len(sites[f.obj]) == 0 {
+			continue
+		}
+		cands = append(cands, f)
+	}
+	// greatest fixpoint per variable and mode (1 = some lock, 2 = exclusive)
+	cl := map[*types.Var][3]map[*types.Func]bool{}
+	for v := range vars {
+		var sets [3]map[*types.Func]bool
+		for mode := 1; mode <= 2; mode++ {
+			set := map[*types.Func]bool{}
+			for _, f := range cands {
+				set[f.obj] = true
+			}
+			for changed := true; changed; {
+				changed = false
+				for _, f := range cands {
+					if !set[f.obj] {
+						continue
+					}
+					for _, s := range sites[f.obj] {
+						ok := !s.c.async && (s.in.held(v, s.c.pos) >= mode || (s.in.obj != nil && set[s.in.obj]))
+						if !ok {
+							delete(set, f.obj)
+							changed = true
+							break
+						}
+					}
+				}
+			}
+			sets[mode] = set
+		}
+		cl[v] = sets
+		for _, f := range cands {
+			if sets[1][f.obj] {
+				mode := "shared"
+				if sets[2][f.obj] {
+					mode = "exclusive"
+				}
+				w.out.CalledLocked = append(w.out.CalledLocked, fmt.Sprintf("%s %s: %s (%s, %d call sites)", w.rel, v.Name(), f.name, mode, len(sites[f.obj])))
 			}
 		}
-		released := false
-		for _, ev := range evs {
-			if !ev.lock && ev.pos > lastLock {
-				released = true
+	}
+	for _, f := range w.funcs {
+		for _, ra := range f.accs {
+			a := ra.acc
+			need := 2
+			if a.Kind == "read" {
+				need = 1
 			}
+			switch {
+			case f.held(ra.v, ra.pos) >= need:
+				a.Locked, a.Via = true, "lexical"
+			case f.obj != nil && cl[ra.v][need] != nil && cl[ra.v][need][f.obj]:
+				a.Locked, a.Via = true, "callers"
+			}
+			if rel, err := filepath.Rel(w.l.repo, a.file); err == nil {
+				a.Pos = fmt.Sprintf("%s:%d", filepath.ToSlash(rel), a.Line)
+			} else {
+				a.Pos = fmt.Sprintf("%s:%d", a.file, a.Line)
+			}
+			w.out.Accs = append(w.out.Accs, a)
 		}
-		a := ra.acc
-		a.Locked = held && released
-		if rel, err := filepath.Rel(w.l.repo, a.file); err == nil {
-			a.Pos = fmt.Sprintf("%s:%d", filepath.ToSlash(rel), a.Line)
-		} else {
-			a.Pos = fmt.Sprintf("%s:%d", a.file, a.Line)
-		}
-		w.out.Accs = append(w.out.Accs, a)
 	}
 }
 
@@ -728,7 +962,7 @@ func collectSrcFacts(repo string) (*SrcFacts, error) {
 		}
 	}
 	for _, path := range paths {
-		w := &sfWalker{l: l, rel: rels[path], info: l.infos[path], tracked: tracked, out: out}
+		w := &sfWalker{l: l, rel: rels[path], info: l.infos[path], pkg: l.pkgs[path], tracked: tracked, out: out}
 		for _, f := range l.files[path] {
 			for _, d := range f.Decls {
 				switch x := d.(type) {
@@ -740,14 +974,14 @@ func collectSrcFacts(repo string) (*SrcFacts, error) {
 						// init itself runs before any goroutine of the program; literals in it may run later
 						ast.Inspect(x.Body, func(n ast.Node) bool {
 							if fl, ok := n.(*ast.FuncLit); ok {
-								w.body("init.func", fl.Body)
+								w.body("init.func", nil, fl.Body)
 								return false
 							}
 							return true
 						})
 						continue
 					}
-					w.body(funcName(x), x.Body)
+					w.body(funcName(x), x, x.Body)
 				case *ast.GenDecl:
 					if x.Tok != token.VAR {
 						continue
@@ -756,7 +990,7 @@ func collectSrcFacts(repo string) (*SrcFacts, error) {
 						for _, val := range sp.(*ast.ValueSpec).Values {
 							ast.Inspect(val, func(n ast.Node) bool {
 								if fl, ok := n.(*ast.FuncLit); ok {
-									w.body("var-initialiser.func", fl.Body)
+									w.body("var-initialiser.func", nil, fl.Body)
 									return false
 								}
 								return true
@@ -766,7 +1000,10 @@ func collectSrcFacts(repo string) (*SrcFacts, error) {
 				}
 			}
 		}
+		w.finish(l.files[path])
 	}
+	sort.Strings(out.CalledLocked)
+	out.Assumptions = sfAssumptions
 	sort.SliceStable(out.Accs, func(i, j int) bool {
 		a, b := out.Accs[i], out.Accs[j]
 		if a.file != b.file {
@@ -800,7 +1037,7 @@ func collectSrcFacts(repo string) (*SrcFacts, error) {
 // accOK mirrors Model/Sched.v fact_ok (for the human-readable description
 // only; the verdict is the Coq evaluation of shared_ok on the emitted term).
 func accOK(a SrcAcc) bool {
-	regTable := a.Pkg == "texttable/decoration" && a.Var == "registry" && a.Path == "table"
+	regTable := a.Path != "" // a field of a mutex-carrying variable; Locked is about that variable's own mutex
 	switch a.Kind {
 	case "read":
 		return a.Locked
@@ -880,7 +1117,7 @@ func (f *SrcFacts) CoqFile() string {
 		fmt.Fprintf(&sb, "(* var  %-22s %-26s %s%s   %s *)\n", v.Pkg, v.Name, v.Type, map[bool]string{true: "  [sync]", false: ""}[v.Sync], v.Pos)
 	}
 	for _, a := range f.Accs {
-		fmt.Fprintf(&sb, "(* acc  %-22s %s.%s %s %s in %s at %s sync=%v locked=%v *)\n", a.Pkg, a.Var, a.Path, a.Kind, a.Meth, a.Func, a.Pos, a.Sync, a.Locked)
+		fmt.Fprintf(&sb, "(* acc  %-22s %s.%s %s %s in %s at %s sync=%v locked=%v %s *)\n", a.Pkg, a.Var, a.Path, a.Kind, a.Meth, a.Func, a.Pos, a.Sync, a.Locked, a.Via)
 	}
 	fmt.Fprintf(&sb, "\nDefinition facts : list fact := %s.\n\n", f.CoqList())
 	sb.WriteString("Definition shared_ok_facts : bool := Eval vm_compute in shared_ok facts.\nPrint shared_ok_facts.\n")
